@@ -56,8 +56,8 @@ class XsdSimpleType(XsdType, ValidationMixin[str | bytes, DecodedValueType]):
     """
     _special_types = {nm.XSD_ANY_TYPE, nm.XSD_ANY_SIMPLE_TYPE}
     _ADMITTED_TAGS: tuple[str, ...] = nm.XSD_SIMPLE_TYPE,
-    _REGEX_SPACE = re.compile(r'\s')
-    _REGEX_SPACES = re.compile(r'\s+')
+    _REGEX_SPACE = re.compile(r'[\t\n\r]')  # XSD white spaces are only #x9, #xA, #xD and #x20
+    _REGEX_SPACES = re.compile(r'[ \t\n\r]+')
     _facets: dict[str | None, FacetsValueType]
 
     abstract: bool = False
@@ -459,7 +459,7 @@ class XsdSimpleType(XsdType, ValidationMixin[str | bytes, DecodedValueType]):
             case 'replace':
                 return self._REGEX_SPACE.sub(' ', text)
             case 'collapse':
-                return self._REGEX_SPACES.sub(' ', text).strip()
+                return self._REGEX_SPACES.sub(' ', text).strip(' ')
             case _:
                 return text
 
@@ -994,7 +994,7 @@ class XsdList(XsdSimpleType):
     def raw_decode(self, obj: str | bytes, validation: str, context: ValidationContext) \
             -> list[AtomicValueType | None]:
         items = []
-        for chunk in self.normalize(obj).split():
+        for chunk in filter(None, self.normalize(obj).split(' ')):
             result = self.item_type.raw_decode(chunk, validation, context)
 
             if isinstance(result, list):
